@@ -1,6 +1,6 @@
 (* C02 — the property, clause by clause.  Only statements here; every proof is `exact lemma`. *)
 From Coq Require Import List String ZArith Bool.
-From V.C02 Require Import Lang Model Spec Wf Proofs Slots ProofsSlots.
+From V.C02 Require Import Lang Model Spec Wf Proofs Slots ProofsSlots SlotModel ProofsSlotUnfold ProofsSlotSim.
 Import ListNotations.
 Open Scope string_scope.
 
@@ -103,14 +103,59 @@ Theorem closure_frame_is_fresh : forall cm funs clos n id oid cap vs g,
 Proof. exact (fun _ _ _ _ _ _ _ _ _ => eq_refl). Qed.
 Print Assumptions closure_frame_is_fresh.
 
-(* "each call gets a fresh slot vector indexed by parse-time variable index": the vector with the
-   function's variable table simulates the name-indexed frame ImplSem uses.  PARTIAL: proved for the
-   frame operations (fresh vector, read, write; distinct variables have distinct slots; a variable
-   outside the table is an error, never another variable's slot).  That ImplSem reaches frames only
-   through [rd]/[wr]/[bind_params] is by inspection of Model.v, and that the table covers a body is
-   recomputed for every generated function by the check ([covers], Run.check_case clause 6); the
-   whole interpreter is not re-proved over vectors. *)
-Theorem slot_vector_represents_frame_partial : forall vs,
+(* "each call gets a fresh slot vector indexed by parse-time variable index": SlotSem (SlotModel.v) is
+   ImplSem with the call frame as runtime/context.go has it — a vector of named cells, one per variable of
+   the function's symbol table (parameters first, then first occurrence), allocated full of nulls at the
+   call, read and written by index.  For every program whose tables cover their bodies ([cov_prog],
+   recomputed for every generated program: Run.check_case clause 6) and every fuel it computes what
+   ImplSem computes ... *)
+Theorem slot_sem_is_impl_sem : forall cm fuel p, cov_prog p = true -> run_slots cm fuel p = run_impl cm fuel p.
+Proof. exact slot_sem_is_impl_sem_l. Qed.
+Print Assumptions slot_sem_is_impl_sem.
+(* ... statement by statement, from related frames to related frames ([E]: same static bindings, one cell
+   per table entry, cell index_of(x) holds what the map holds for x), same control, same global state *)
+Theorem slot_sim_statement : forall cm funs clos,
+  (forall f d, find_fun funs f = Some d ->
+     forallb (fun q => mem (fst q) (fun_vars d)) (fparams d) = true /\ cov_stmt clos (fun_vars d) (fbody d) = true) ->
+  (forall id cd, nth_error clos id = Some cd ->
+     forallb (fun q => mem (fst q) (clo_vars cd)) (cparams cd) = true /\ cov_stmt clos (clo_vars cd) (cbody cd) = true) ->
+  forall n vs fn s fr sf g, E vs fr sf -> cov_stmt clos vs s = true ->
+  erel vs (iexec cm funs clos n fn s fr g) (sexec cm funs clos n vs fn s sf g).
+Proof. exact slot_sim. Qed.
+Print Assumptions slot_sim_statement.
+(* hence the slot-vector interpreter refines the reference semantics too *)
+Theorem slots_refine_ref : forall cmi cmr, (forall t v, cmi t v = cmr t v) ->
+  forall fuel p, wf p = true -> clean p = true -> cov_prog p = true ->
+  run_slots cmi fuel p = run_ref cmr fuel p.
+Proof.
+  exact (fun cmi cmr H fuel p W C V =>
+           eq_trans (slot_sem_is_impl_sem_l cmi fuel p V) (impl_refines_ref_l cmi cmr H fuel p W C)).
+Qed.
+Print Assumptions slots_refine_ref.
+(* "locals of one call are never visible to another call", on vectors: the callee of a named function
+   runs on a vector allocated for ITS table, holding nulls and the bound parameters (a closure: plus
+   its captured values); the caller's vector after the call is the one argument evaluation left *)
+Theorem callee_vector_is_fresh : forall cm funs clos n f avs g,
+  scallf cm funs clos n (CFun f) avs g =
+  match find_fun funs f with
+  | None => Some (EX (err "undefined function"), g)
+  | Some d =>
+      match sexec cm funs clos n (fun_vars d) f (fbody d) (sbind_params (fun_vars d) (fparams d) avs (sfresh (fun_vars d)), []) g with
+      | Fuel => None
+      | Res c _ g' => Some (call_result c, g')
+      end
+  end.
+Proof. exact (fun _ _ _ _ _ _ _ => eq_refl). Qed.
+Print Assumptions callee_vector_is_fresh.
+Theorem call_leaves_caller_vector : forall cf funs clos vs fn f a fr g o fr' g',
+  seval cf funs clos vs fn (ECall f a) fr g = Res o fr' g' ->
+  (exists x, seval_args cf funs clos vs fn a fr g = Res (inr x) fr' g' /\ o = EX x) \/
+  (find_fun funs f = None /\ fr' = fr /\ g' = g) \/
+  (exists avs g1, seval_args cf funs clos vs fn a fr g = Res (inl avs) fr' g1 /\ cf (CFun f) avs g1 = Some (o, g')).
+Proof. exact scall_frames_l. Qed.
+Print Assumptions call_leaves_caller_vector.
+(* the vector operations themselves *)
+Theorem slot_vector_represents_frame : forall vs,
   vrel vs [] (vfresh vs) /\
   (forall e vec x, vrel vs e vec -> mem x vs = true -> vrd vs vec x = Some (lookup x e)) /\
   (forall e vec x v, vrel vs e vec -> mem x vs = true ->
@@ -119,7 +164,7 @@ Theorem slot_vector_represents_frame_partial : forall vs,
 Proof.
   exact (fun vs => conj (vrel_fresh vs) (conj (vrel_rd vs) (conj (vrel_wr vs) (vwr_unlisted vs)))).
 Qed.
-Print Assumptions slot_vector_represents_frame_partial.
+Print Assumptions slot_vector_represents_frame.
 Theorem slots_distinct : forall x y vs i, index_of x vs = Some i -> index_of y vs = Some i -> x = y.
 Proof. exact index_of_inj. Qed.
 Print Assumptions slots_distinct.
